@@ -150,7 +150,7 @@ class LiteDRAMAXI2NativeW(Module):
 
             # Grant write when write buffer is empty and the beat's address is known: all the previous
             # beats have then been sent with their command and aw is at the beat presented on axi.w.
-            self.comb += self.rmw_wgrant.eq(~w_buffer_queue & (w_buffer_level == 0) & (w_buffer.level == 0) & aw.valid)
+            self.comb += self.rmw_wgrant.eq(~w_buffer_queue & (w_buffer_level == 0) & (w_buffer.level == 0) & aw.valid & can_respond)
 
             # Prevent new write during the Read-Modify-Write access (buffered beats are sent first).
             rmw_active = Signal()
